@@ -764,11 +764,13 @@ impl Words4 for u64x4_generic {
     }
     #[inline(always)]
     fn shuffle1230(self) -> Self {
-        unimplemented!()
+        let [a, b, c, d] = self.to_lanes();
+        Self::from_lanes([d, a, b, c])
     }
     #[inline(always)]
     fn shuffle3012(self) -> Self {
-        unimplemented!()
+        let [a, b, c, d] = self.to_lanes();
+        Self::from_lanes([b, c, d, a])
     }
 }
 
